@@ -14,7 +14,8 @@ package astutil
 //@ spec fun walkedS(c ast.Stmt) bool = c == nil || (exists j int :: 0 <= j && j < ncalls() && calleeIs(j, "walkStmt") && arg(j) == c && res(j) == nil)
 //@ spec fun walkedO(c ast.Operator) bool = c == nil || (exists j int :: 0 <= j && j < ncalls() && calleeIs(j, "walkOperator") && arg(j) == c && res(j) == nil)
 // a slice of children is walked by one walkExprs/walkStmts call on it, or element by element
-//@ spec fun walkedEs(s []ast.Expr) bool = (exists j int :: 0 <= j && j < ncalls() && calleeIs(j, "walkExprs") && arg(j) == s && res(j) == nil) || (forall i int :: 0 <= i && i < len(s) ==> walkedE(s[i]))
+// (or, for the arguments of an anonymous call, by walking a call node that carries exactly this argument list)
+//@ spec fun walkedEs(s []ast.Expr) bool = (exists j int :: 0 <= j && j < ncalls() && calleeIs(j, "walkExprs") && arg(j) == s && res(j) == nil) || (forall i int :: 0 <= i && i < len(s) ==> walkedE(s[i])) || (exists j int :: 0 <= j && j < ncalls() && calleeIs(j, "walkExpr") && typeis(arg(j), "*ast.CallExpr") && as(arg(j), "*ast.CallExpr").SubExprs == s && res(j) == nil)
 //@ spec fun walkedSs(s []ast.Stmt) bool = (exists j int :: 0 <= j && j < ncalls() && calleeIs(j, "walkStmts") && arg(j) == s && res(j) == nil) || (forall i int :: 0 <= i && i < len(s) ==> walkedS(s[i]))
 
 // every error comes from a callee (ultimately from the callback), and the walk stops at the first one
